@@ -1,4 +1,499 @@
 import Jose.Jws
+import Jose.Lemmas.Tree
+/-
+  C01 — JWS verification is sound: only genuinely signed content verifies.
+  Statements about `Jws.ver` / `Jws.verIo` (jose_jws_ver / jose_jws_ver_io and the
+  `sign.ver` hooks), for every instance `P` of the primitives.
+-/
+set_option linter.unusedSimpArgs false
+set_option linter.unusedVariables false
+
 namespace Jose.Props.C01
-theorem placeholder : (1 : Nat) = 1 := rfl
+open Jose Jose.Jws Jose.IO Jose.Json Jose.Entity Tables
+
+/-! ### multiplexers over lists of verifiers -/
+
+theorem V_any (ls : List Stage) (x : Bs) : V (.plex false (branchesOf ls)) x = ls.any (fun l => V l x) := by
+  simp only [V]
+  induction ls with
+  | nil => simp [branchesOf, anyV]
+  | cons l r ih => simp [branchesOf, anyV, ih]
+
+theorem V_all (ls : List Stage) (x : Bs) :
+    V (.plex true (branchesOf ls)) x = (!ls.isEmpty && ls.all (fun l => V l x)) := by
+  simp only [V]
+  have h : ∀ ls : List Stage, allV (branchesOf ls) x = ls.all (fun l => V l x) := by
+    intro ls
+    induction ls with
+    | nil => simp [branchesOf, allV]
+    | cons l r ih => simp [branchesOf, allV, ih]
+  cases ls with
+  | nil => simp [branchesOf, nonemptyB]
+  | cons l r =>
+    have := h (l :: r)
+    simp only [branchesOf] at this
+    simp [branchesOf, nonemptyB, this]
+
+theorem accB_branchesOf (ls : List Stage) (h : ∀ l ∈ ls, AccT l) : AccB (branchesOf ls) := by
+  induction ls with
+  | nil => exact .nil
+  | cons l r ih => exact .cons l _ (h l (by simp)) (ih (fun x hx => h x (by simp [hx])))
+
+/-! ### one signature object against one key -/
+
+/-- the decision for one (signature object, key) pair over the payload text `pay` -/
+def pairOk (P : Prims) (s k : Json) (pay : Bs) : Bool :=
+  match verOne P s k with
+  | some sg => V sg pay
+  | none => false
+
+/-- unfolding of a successful `verOne` -/
+theorem verOne_some (P : Prims) (s k : Json) (sg : Stage) (h : verOne P s k = some sg) :
+    ∃ hdr halg kalg name a f pre,
+      jwsHdr s = some hdr ∧ optStr hdr "alg" = some halg ∧ optStr k "alg" = some kalg ∧
+      verSelect halg kalg = some name ∧ findSign name = some a ∧
+      Jwk.prm (some k) false a.p2 = true ∧
+      verLeaf P name s k = some f ∧ prefixOf s = some pre ∧ sg = leafStage f pre := by
+  simp only [verOne] at h
+  split at h
+  · simp at h
+  · simp only [Option.bind_eq_some_iff] at h
+    obtain ⟨kalg, h1, hdr, h2, halg, h3, name, h4, a, h5, h6⟩ := h
+    split at h6
+    · simp at h6
+    · rename_i hprm
+      simp only [Option.bind_eq_some_iff, Option.some.injEq] at h6
+      obtain ⟨f, h7, pre, h8, h9⟩ := h6
+      exact ⟨hdr, halg, kalg, name, a, f, pre, h2, h3, h1, h4, h5, by simpa using hprm, h7, h8, h9.symm⟩
+
+theorem verOne_acc (P : Prims) (s k : Json) (sg : Stage) (h : verOne P s k = some sg) : AccT sg := by
+  obtain ⟨_, _, _, _, _, f, pre, _, _, _, _, _, _, _, _, rfl⟩ := verOne_some P s k sg h
+  exact .leaf _ rfl
+
+/-- C01 (core): what a successful pair check means.  The algorithm `name` is the one
+    named by the signature's merged header (or, if the header names none, by the key),
+    it is a registered signature algorithm, the key declares no other algorithm and is
+    permitted to verify, and the algorithm's check `f` — see `leaf_*` below — holds on
+    **exactly** the protected-header text, a '.', and the payload text. -/
+theorem pairOk_spec (P : Prims) (s k : Json) (pay : Bs) (h : pairOk P s k pay = true) :
+    ∃ hdr halg kalg name a f pre,
+      jwsHdr s = some hdr ∧ optStr hdr "alg" = some halg ∧ optStr k "alg" = some kalg ∧
+      verSelect halg kalg = some name ∧ findSign name = some a ∧
+      Jwk.prm (some k) false a.p2 = true ∧
+      verLeaf P name s k = some f ∧ prefixOf s = some pre ∧ f (pre ++ pay) = true := by
+  simp only [pairOk] at h
+  cases hv : verOne P s k with
+  | none => simp [hv] at h
+  | some sg =>
+    simp only [hv] at h
+    obtain ⟨hdr, halg, kalg, name, a, f, pre, h1, h2, h3, h4, h5, h6, h7, h8, rfl⟩ := verOne_some P s k sg hv
+    refine ⟨hdr, halg, kalg, name, a, f, pre, h1, h2, h3, h4, h5, h6, h7, h8, ?_⟩
+    simp only [leafStage, V] at h
+    split at h
+    · assumption
+    · simp at h
+
+/-- the name selected is the header's if it names one, and a key that declares an
+    algorithm is refused for any other name — whatever the two names are (C05) -/
+theorem verSelect_spec (halg kalg : Option String) (name : String) (h : verSelect halg kalg = some name) :
+    (∀ a, halg = some a → name = a) ∧ (∀ b, kalg = some b → name = b) := by
+  cases halg <;> cases kalg <;> simp [verSelect] at h
+  · subst h; simp
+  · subst h; simp
+  · obtain ⟨h1, h2⟩ := h; subst h1; subst h2; simp
+
+/-- an algorithm that is not a registered signature algorithm ("none", anything
+    unknown) never verifies -/
+theorem unsupported_alg_fails (P : Prims) (s k : Json) (pay : Bs)
+    (h : ∀ hdr halg kalg name, jwsHdr s = some hdr → optStr hdr "alg" = some halg → optStr k "alg" = some kalg →
+      verSelect halg kalg = some name → findSign name = none) : pairOk P s k pay = false := by
+  cases hp : pairOk P s k pay with
+  | false => rfl
+  | true =>
+    obtain ⟨hdr, halg, kalg, name, a, f, pre, h1, h2, h3, h4, h5, _⟩ := pairOk_spec P s k pay hp
+    rw [h hdr halg kalg name h1 h2 h3 h4] at h5
+    simp at h5
+
+theorem none_not_registered : findSign "none" = none ∧ findSign "" = none := by decide
+
+/-! ### what each family's leaf checks -/
+
+/-- HMAC: the signature member decodes to exactly the MAC of the input under the key,
+    whose length is within [hash size, KEYMAX] -/
+theorem leaf_hmac (P : Prims) (h : String) (s k : Json) (f : Bs → Bool) (msg : Bs)
+    (hl : hmacVer P h s k = some f) (hok : f msg = true) :
+    ∃ key sv, bytesOfJson (k.get? "k") = some key ∧ hashLen h ≤ key.length ∧ key.length ≤ keymax ∧
+      sigBytes s = some sv ∧ sv.length = hashLen h ∧ P.hmac h key msg = sv := by
+  simp only [hmacVer, Option.map_eq_some_iff] at hl
+  obtain ⟨key, hkey, rfl⟩ := hl
+  simp only [hmacKey] at hkey
+  cases hk : bytesOfJson (k.get? "k") with
+  | none => simp [hk] at hkey
+  | some kb =>
+    simp only [hk] at hkey
+    split at hkey
+    · simp at hkey
+    · rename_i h1
+      split at hkey
+      · simp at hkey
+      · rename_i h2
+        simp only [Option.some.injEq] at hkey
+        subst hkey
+        cases hs : sigBytes s with
+        | none => simp [hs] at hok
+        | some sv =>
+          simp only [hs, Bool.and_eq_true, beq_iff_eq] at hok
+          exact ⟨kb, sv, rfl, by omega, by omega, rfl, hok.1, hok.2⟩
+
+/-- ECDSA: the key passed `EC_KEY_check_key`, the signature is r‖s of exactly twice the
+    curve's width, and the primitive accepts them over the digest of the input -/
+theorem leaf_ecdsa (P : Prims) (h : String) (s k : Json) (f : Bs → Bool) (msg : Bs)
+    (hl : ecdsaVer P h s k = some f) (hok : f msg = true) :
+    ∃ hfun key sv, P.hash h = some hfun ∧ ecKeyOf P k = some key ∧ sigBytes s = some sv ∧
+      sv.length = 2 * key.len ∧
+      P.ecdsaVerify key.crv key.x key.y (hfun msg) (sv.take key.len) (sv.drop key.len) = true := by
+  simp only [ecdsaVer, Option.bind_eq_some_iff, Option.map_eq_some_iff] at hl
+  obtain ⟨hfun, hh, key, hk, rfl⟩ := hl
+  cases hs : sigBytes s with
+  | none => simp [hs] at hok
+  | some sv =>
+    simp only [hs, Bool.and_eq_true, beq_iff_eq] at hok
+    exact ⟨hfun, key, sv, hh, hk, rfl, hok.1, hok.2⟩
+
+/-- an imported EC key is one the curve check accepted, on one of the four named curves (C10) -/
+theorem ecKey_valid (P : Prims) (k : Json) (key : EcKey) (h : ecKeyOf P k = some key) :
+    P.ecValid key.crv key.x key.y key.d = true ∧ crvLen key.crv = some key.len ∧
+    key.crv ∈ ["P-256", "P-384", "P-521", "secp256k1"] := by
+  simp only [ecKeyOf] at h
+  split at h
+  · rename_i crv xj yj _ _ _ _
+    cases hc : crvLen crv with
+    | none => simp [hc] at h
+    | some len =>
+      simp only [hc] at h
+      split at h
+      · rename_i d x y _ _ _
+        split at h
+        · rename_i hv
+          simp only [Option.some.injEq] at h
+          subst h
+          refine ⟨hv, hc, ?_⟩
+          simp only [crvLen] at hc
+          split at hc <;> simp_all
+        · simp at h
+      · simp at h
+  · simp at h
+
+/-- RSASSA: modulus of at least 256 bytes (2048 bits) and the primitive accepts the
+    signature over the input -/
+theorem leaf_rsa (P : Prims) (h : String) (pss : Bool) (s k : Json) (f : Bs → Bool) (msg : Bs)
+    (hl : rsaVer P pss h s k = some f) (hok : f msg = true) :
+    ∃ key sv, rsaKeyOf k = some key ∧ 256 ≤ (stripZeros key.n).length ∧ sigBytes s = some sv ∧
+      P.rsaVerify pss h key.n key.e msg sv = true := by
+  simp only [rsaVer, Option.map_eq_some_iff] at hl
+  obtain ⟨key, hkey, rfl⟩ := hl
+  simp only [rsaSigKey] at hkey
+  split at hkey
+  · simp only [Option.bind_eq_some_iff] at hkey
+    obtain ⟨key', hk', hsz⟩ := hkey
+    split at hsz
+    · simp at hsz
+    · rename_i hlen
+      simp only [Option.some.injEq] at hsz
+      subst hsz
+      cases hs : sigBytes s with
+      | none => simp [hs] at hok
+      | some sv =>
+        simp only [hs] at hok
+        exact ⟨key', sv, hk', by omega, rfl, hok⟩
+  · simp at hkey
+
+/-- the leaf of a registered name is the leaf of its family -/
+theorem verLeaf_family (P : Prims) (name : String) (s k : Json) (f : Bs → Bool) (h : verLeaf P name s k = some f) :
+    (∃ hs, family name = some (.hmac hs) ∧ hmacVer P hs s k = some f) ∨
+    (∃ hs, family name = some (.ecdsa hs) ∧ ecdsaVer P hs s k = some f) ∨
+    (∃ pss hs, family name = some (.rsa pss hs) ∧ rsaVer P pss hs s k = some f) := by
+  simp only [verLeaf] at h
+  cases hf : family name with
+  | none => simp [hf] at h
+  | some fam =>
+    cases fam with
+    | hmac hs => simp only [hf] at h; exact Or.inl ⟨hs, rfl, h⟩
+    | ecdsa hs => simp only [hf] at h; exact Or.inr (Or.inl ⟨hs, rfl, h⟩)
+    | rsa pss hs => simp only [hf] at h; exact Or.inr (Or.inr ⟨pss, hs, rfl, h⟩)
+
+/-- every registered signature algorithm belongs to one of the three families the
+    model knows (re-checked against the regenerated registry) -/
+theorem families_cover_registry : ∀ a ∈ signAlgs, (family a.name).isSome = true := by decide
+
+/-- every registered signature algorithm demands "verify" for verification and "sign"
+    for signing -/
+theorem sign_algs_permissions : ∀ a ∈ signAlgs, a.p1 = some "sign" ∧ a.p2 = some "verify" := by decide
+
+/-- an absent signature value never verifies, for any algorithm -/
+theorem absent_signature_fails (P : Prims) (name : String) (s k : Json) (f : Bs → Bool) (msg : Bs)
+    (hl : verLeaf P name s k = some f) (hs : sigBytes s = none) : f msg = false := by
+  rcases verLeaf_family P name s k f hl with ⟨h, _, hv⟩ | ⟨h, _, hv⟩ | ⟨pss, h, _, hv⟩
+  · simp only [hmacVer, Option.map_eq_some_iff] at hv
+    obtain ⟨_, _, rfl⟩ := hv; simp [hs]
+  · simp only [ecdsaVer, Option.bind_eq_some_iff, Option.map_eq_some_iff] at hv
+    obtain ⟨_, _, _, _, rfl⟩ := hv; simp [hs]
+  · simp only [rsaVer, Option.map_eq_some_iff] at hv
+    obtain ⟨_, _, rfl⟩ := hv; simp [hs]
+
+/-- an empty signature value never verifies for HMAC and ECDSA algorithms (their
+    signature sizes are positive: table fact) -/
+theorem sizes_positive : (∀ h ∈ ["S256", "S384", "S512"], 0 < hashLen h) ∧
+    (∀ c ∈ ["P-256", "P-384", "P-521", "secp256k1"], ∃ n, crvLen c = some n ∧ 0 < n) := by decide
+
+/-! ### signature objects and keys: the verdict of `jose_jws_ver` -/
+
+/-- the signature objects examined for one key -/
+def sigObjs (jws : Json) (sig : Option Json) : List Json :=
+  match sig with
+  | some s => [s]
+  | none =>
+    match jws.get? "signatures" with
+    | some (.arr l) => l
+    | _ => [jws]
+
+/-- verdict for one key: some signature object passes -/
+def keyOk (P : Prims) (jws : Json) (sig : Option Json) (k : Json) (pay : Bs) : Bool :=
+  (sigObjs jws sig).any (fun s => pairOk P s k pay)
+
+theorem verKey_spec (P : Prims) (jws : Json) (sig : Option Json) (k : Json) (pay : Bs) :
+    (match verKey P jws sig k with | some sg => V sg pay | none => false) = keyOk P jws sig k pay ∧
+    (∀ sg, verKey P jws sig k = some sg → AccT sg) := by
+  simp only [verKey, keyOk, sigObjs]
+  cases sig with
+  | some s =>
+    simp only [List.any_cons, List.any_nil, Bool.or_false, pairOk]
+    exact ⟨trivial, fun sg h => verOne_acc P s k sg h⟩
+  | none =>
+    simp only [verAllSigs]
+    cases hs : jws.get? "signatures" with
+    | none =>
+      simp only [List.any_cons, List.any_nil, Bool.or_false, pairOk]
+      exact ⟨trivial, fun sg h => verOne_acc P jws k sg h⟩
+    | some sj =>
+      cases sj with
+      | arr l =>
+        simp only
+        constructor
+        · rw [V_any]
+          simp only [List.any_filterMap, pairOk]
+          congr 1
+          funext s
+          cases verOne P s k <;> simp
+        · intro sg h
+          simp only [Option.some.injEq] at h
+          subst h
+          apply AccT.node
+          apply accB_branchesOf
+          intro l' hl'
+          simp only [List.mem_filterMap] at hl'
+          obtain ⟨s, _, hs⟩ := hl'
+          exact verOne_acc P s k l' hs
+      | _ =>
+        simp only [List.any_cons, List.any_nil, Bool.or_false, pairOk]
+        exact ⟨trivial, fun sg h => verOne_acc P jws k sg h⟩
+
+/-- C01, single key.  `jose_jws_ver` reports success exactly when the JWS has a payload
+    and some signature object passes the pair check under the key (see `pairOk_spec`).
+    In particular an empty or absent signature list with no flattened signature fails. -/
+theorem ver_single (P : Prims) (jws : Json) (sig : Option Json) (jwk : Json) (all : Bool)
+    (hk : keyList jwk = none) :
+    ver P jws sig jwk all = (match payloadOf jws with | some pay => keyOk P jws sig jwk pay | none => false) := by
+  simp only [ver]
+  cases hp : payloadOf jws with
+  | none => rfl
+  | some pay =>
+    simp only [verIo, hk]
+    obtain ⟨h1, h2⟩ := verKey_spec P jws sig jwk pay
+    cases hv : verKey P jws sig jwk with
+    | none => simp [hv] at h1; simp [h1]
+    | some sg =>
+      simp only [hv] at h1
+      have := run_V (h2 sg hv) [pay]
+      simp only [List.flatten_cons, List.flatten_nil, List.append_nil] at this
+      simp only [this, h1]
+
+/-- C01, streaming: for every split of the payload into feeds the verdict of the final
+    `done` is the one-shot verdict -/
+theorem ver_stream (P : Prims) (jws : Json) (sig : Option Json) (jwk : Json) (all : Bool)
+    (hk : keyList jwk = none) (sg : Stage) (hio : verIo P jws sig jwk all = some sg) (cs : List Bs) :
+    (run sg cs).2 = keyOk P jws sig jwk cs.flatten := by
+  simp only [verIo, hk] at hio
+  obtain ⟨h1, h2⟩ := verKey_spec P jws sig jwk cs.flatten
+  rw [run_V (h2 sg hio) cs]
+  simp only [hio] at h1
+  exact h1
+
+/-! ### several keys: `any` and `all` -/
+
+/-- value of an optional sub-verifier on the payload: a NULL one counts as failed -/
+def subVal (pay : Bs) : Option Stage → Bool
+  | some sg => V sg pay
+  | none => false
+
+/-- the multiplexer over the non-NULL sub-verifiers, as `jose_jws_ver_io` builds it for a key list -/
+theorem plex_subs (all : Bool) (subs : List (Option Stage)) (pay : Bs)
+    (hacc : ∀ sg, some sg ∈ subs → AccT sg) :
+    (if all && subs.any Option.isNone then false
+     else (run (.plex all (branchesOf (subs.filterMap id))) [pay]).2) =
+    (if all then !subs.isEmpty && subs.all (subVal pay) else subs.any (subVal pay)) := by
+  have hA : AccT (.plex all (branchesOf (subs.filterMap id))) := by
+    apply AccT.node
+    apply accB_branchesOf
+    intro l hl
+    simp only [List.mem_filterMap, id] at hl
+    obtain ⟨o, ho, rfl⟩ := hl
+    exact hacc l ho
+  have hrun := run_V hA [pay]
+  simp only [List.flatten_cons, List.flatten_nil, List.append_nil] at hrun
+  rw [hrun]
+  cases all with
+  | false =>
+    simp only [Bool.false_and, Bool.false_eq_true, if_false, V_any]
+    induction subs with
+    | nil => simp
+    | cons o r ih =>
+      have ihr := ih (fun sg h => hacc sg (by simp [h])) (by
+        apply AccT.node; apply accB_branchesOf
+        intro l hl
+        simp only [List.mem_filterMap, id] at hl
+        obtain ⟨o', ho', rfl⟩ := hl
+        exact hacc l (by simp [ho'])) (by
+        have := run_V (sg := .plex false (branchesOf (r.filterMap id))) (by
+          apply AccT.node; apply accB_branchesOf
+          intro l hl
+          simp only [List.mem_filterMap, id] at hl
+          obtain ⟨o', ho', rfl⟩ := hl
+          exact hacc l (by simp [ho'])) [pay]
+        simpa using this)
+      cases o with
+      | none => simpa [subVal] using ihr
+      | some sg => simp [subVal, List.filterMap_cons, ihr]
+  | true =>
+    simp only [Bool.true_and, if_true, V_all]
+    by_cases hn : subs.any Option.isNone = true
+    · simp only [hn, if_true]
+      -- a NULL sub-verifier has value false
+      have : subs.all (subVal pay) = false := by
+        simp only [List.any_eq_true] at hn
+        obtain ⟨o, ho, hnone⟩ := hn
+        cases o with
+        | some _ => simp at hnone
+        | none =>
+          apply Bool.eq_false_iff.mpr
+          intro hall
+          have := (List.all_eq_true.mp hall) none ho
+          simp [subVal] at this
+      simp [this]
+    · simp only [hn, Bool.false_eq_true, if_false]
+      -- no NULLs: filterMap id is the list of stages
+      have hall : ∀ o ∈ subs, o.isSome = true := by
+        intro o ho
+        cases o with
+        | some _ => rfl
+        | none => exact absurd (List.any_eq_true.mpr ⟨none, ho, rfl⟩) hn
+      clear hn hrun hA
+      induction subs with
+      | nil => simp
+      | cons o r ih =>
+        cases o with
+        | none => exact absurd (hall none (by simp)) (by simp)
+        | some sg =>
+          have ihr := ih (fun sg h => hacc sg (by simp [h])) (fun o ho => hall o (by simp [ho]))
+          simp only [List.filterMap_cons, id, List.isEmpty_cons, Bool.not_false, Bool.true_and, List.all_cons, subVal]
+          cases r with
+          | nil => simp
+          | cons o2 r2 =>
+            simp only [List.isEmpty_cons, Bool.not_false, Bool.true_and] at ihr
+            have hne : (List.filterMap id (o2 :: r2)).isEmpty = false := by
+              cases o2 with
+              | none => exact absurd (hall none (by simp)) (by simp)
+              | some _ => simp
+            simp only [hne, Bool.not_false, Bool.true_and] at ihr
+            rw [ihr]
+
+theorem all_congr_mem {α : Type} (l : List α) (f g : α → Bool) (h : ∀ a ∈ l, f a = g a) : l.all f = l.all g := by
+  induction l with
+  | nil => rfl
+  | cons a r ih => simp [h a (by simp), ih (fun x hx => h x (by simp [hx]))]
+
+theorem any_congr_mem {α : Type} (l : List α) (f g : α → Bool) (h : ∀ a ∈ l, f a = g a) : l.any f = l.any g := by
+  induction l with
+  | nil => rfl
+  | cons a r ih => simp [h a (by simp), ih (fun x hx => h x (by simp [hx]))]
+
+/-- verdict for key number `i` of a key list -/
+def keyOkAt (P : Prims) (jws : Json) (sig : Option Json) (keys : List Json) (pay : Bs) (i : Nat) : Bool :=
+  match keys[i]? with
+  | some k => keyOk P jws (sigFor sig i) k pay
+  | none => false
+
+/-- C01, key lists (JWK array or JWKSet of plain keys).  With `all`, verification
+    succeeds exactly when the list is non-empty and **every** key has a signature
+    object that passes under it; without `all`, exactly when **some** key has one.
+    An empty key set therefore never verifies, in either mode. -/
+theorem ver_keys (P : Prims) (jws : Json) (sig : Option Json) (jwk : Json) (all : Bool) (keys : List Json) (pay : Bs)
+    (hk : keyList jwk = some keys) (hflat : ∀ k ∈ keys, keyList k = none)
+    (hp : payloadOf jws = some pay) (hsz : sigSizeOk sig keys.length = true) :
+    ver P jws sig jwk all =
+      (if all then !keys.isEmpty && (List.range keys.length).all (keyOkAt P jws sig keys pay)
+       else (List.range keys.length).any (keyOkAt P jws sig keys pay)) := by
+  simp only [ver, hp, verIo, hk, verKeys, hsz, Bool.not_true, Bool.false_eq_true, if_false]
+  -- value and accumulation property of every sub-verifier
+  have hval : ∀ i, i < keys.length → subVal pay (subFor P jws sig keys i) = keyOkAt P jws sig keys pay i := by
+    intro i hi
+    simp only [subFor, keyOkAt]
+    have hget : keys[i]? = some keys[i] := List.getElem?_eq_getElem hi
+    simp only [hget, hflat keys[i] (List.getElem_mem hi)]
+    have := (verKey_spec P jws (sigFor sig i) keys[i] pay).1
+    cases hv : verKey P jws (sigFor sig i) keys[i] with
+    | none => simp [hv, subVal] at this ⊢; exact this
+    | some sg => simp [hv, subVal] at this ⊢; exact this
+  have hacc : ∀ sg, some sg ∈ (List.range keys.length).map (subFor P jws sig keys) → AccT sg := by
+    intro sg hsg
+    simp only [List.mem_map, List.mem_range] at hsg
+    obtain ⟨i, hi, hs⟩ := hsg
+    simp only [subFor] at hs
+    have hget : keys[i]? = some keys[i] := List.getElem?_eq_getElem hi
+    simp only [hget, hflat keys[i] (List.getElem_mem hi)] at hs
+    exact (verKey_spec P jws (sigFor sig i) keys[i] pay).2 sg hs
+  have hmain := plex_subs all ((List.range keys.length).map (subFor P jws sig keys)) pay hacc
+  have hall : ((List.range keys.length).map (subFor P jws sig keys)).all (subVal pay) =
+      (List.range keys.length).all (keyOkAt P jws sig keys pay) := by
+    rw [List.all_map]
+    exact all_congr_mem _ _ _ (fun i hi => hval i (List.mem_range.mp hi))
+  have hany : ((List.range keys.length).map (subFor P jws sig keys)).any (subVal pay) =
+      (List.range keys.length).any (keyOkAt P jws sig keys pay) := by
+    rw [List.any_map]
+    exact any_congr_mem _ _ _ (fun i hi => hval i (List.mem_range.mp hi))
+  have hemp : ((List.range keys.length).map (subFor P jws sig keys)).isEmpty = keys.isEmpty := by
+    cases keys <;> simp [List.range_succ]
+  rw [hall, hany, hemp] at hmain
+  rw [← hmain]
+  by_cases hc : (all && ((List.range keys.length).map (subFor P jws sig keys)).any Option.isNone) = true
+  · simp only [hc, if_true]
+  · simp only [hc, Bool.false_eq_true, if_false]
+
+/-- the empty key set never verifies -/
+theorem empty_keys_fail (P : Prims) (jws : Json) (sig : Option Json) (jwk : Json) (all : Bool)
+    (hk : keyList jwk = some []) : ver P jws sig jwk all = false := by
+  cases hp : payloadOf jws with
+  | none => simp [ver, hp]
+  | some pay =>
+    have hs : sigSizeOk sig 0 = true ∨ sigSizeOk sig 0 = false := by cases sigSizeOk sig 0 <;> simp
+    rcases hs with hs | hs
+    · rw [ver_keys P jws sig jwk all [] pay hk (by simp) hp (by simpa using hs)]
+      cases all <;> simp
+    · simp [ver, hp, verIo, hk, verKeys, hs]
+
+/-- the empty signature list never verifies -/
+theorem empty_signatures_fail (P : Prims) (jws jwk : Json) (pay : Bs)
+    (h : jws.get? "signatures" = some (.arr [])) : keyOk P jws none jwk pay = false := by
+  simp [keyOk, sigObjs, h]
+
 end Jose.Props.C01
